@@ -149,23 +149,25 @@ Fixpoint state_after (s : st) (tr : list msg) : st :=
 (* ------------------------------------------------------------------------------------------
    The connection side (peer_inbound_service.rs), as far as locks are concerned.
 
-   One connection c:  the select! loop takes a room out of lock_receiver and calls
-   process_acquired_room, which spawns a task that inserts the room into acquired_lock,
-   synchronises, ALWAYS sends Unlock(room), then removes the room from acquired_lock.  When the
-   loop ends, every room in acquired_lock is unlocked by `cleanup`, whether or not its task has
-   finished (the tasks are not cancelled), and lock_receiver is dropped with whatever it still
-   contains.
+   One connection c owns one reply channel (generation 0).  Its select! loop takes a room out of
+   lock_receiver and calls process_acquired_room, which spawns a task that inserts the room into
+   acquired_lock, synchronises, ALWAYS sends Unlock(room), then removes the room from
+   acquired_lock.  When the loop ends, every room in acquired_lock is unlocked by `cleanup`,
+   whether or not its task has finished (the tasks are not cancelled), and lock_receiver is dropped
+   with whatever it still contains.  acquired_lock is a HashSet: the order in which cleanup
+   unlocks is an oracle choice; model and harness use ascending room order.
 
-   Connection-level events are translated into the service trace they cause. *)
+   Connection-level events are translated into the service messages they cause. *)
 Inductive cev :=
 | CRequest (c : circuit) (rooms : list rid)      (* process_remote_event -> request_locks(c, rooms, lock_reply) *)
 | CTake (c : circuit)                            (* the loop receives the oldest grant and spawns its task *)
-| CFinish (c : circuit) (r : rid)                (* a running task of c for r finishes: unlock(r); acquired_lock.remove(r) *)
+| CFinish (c : circuit) (r : rid)                (* a running task of c for r ends: unlock(r); acquired_lock.remove(r) *)
 | CEnd (c : circuit).                            (* the loop ends: cleanup(acquired_lock); receiver dropped *)
 
-Record conn := { cn_c : circuit; cn_inbox : list rid;      (* granted, not yet taken; oldest first *)
-                 cn_acq : list rid;                         (* acquired_lock *)
-                 cn_tasks : list rid;                       (* tasks spawned and not finished *)
+Record conn := { cn_c : circuit;
+                 cn_inbox : list rid;       (* granted, not yet taken; oldest first *)
+                 cn_acq : list rid;         (* acquired_lock, ascending *)
+                 cn_tasks : list rid;       (* tasks spawned and not finished *)
                  cn_ended : bool }.
 Record cst := { c_svc : st; c_conns : list conn }.
 
@@ -177,17 +179,23 @@ Definition find_conn (cs : list conn) (c : circuit) : conn :=
 Definition set_conn (cs : list conn) (x : conn) : list conn :=
   x :: filter (fun y => negb (N.eqb (cn_c y) (cn_c x))) cs.
 
-(* grants are delivered into the inbox of the connection whose channel received them *)
+Fixpoint insert_sorted (x : N) (l : list N) : list N :=
+  match l with
+  | [] => [x]
+  | y :: t => if N.eqb x y then l else if N.ltb x y then x :: l else y :: insert_sorted x t
+  end.
+Fixpoint remove_one_N (x : N) (l : list N) : list N :=
+  match l with [] => [] | y :: t => if N.eqb x y then t else y :: remove_one_N x t end.
+
+(* a grant is written into the channel of its connection *)
 Definition deliver (cs : list conn) (gs : list grant) : list conn :=
-  fold_left (fun acc g => let '(c, _, r) := g in
-                          let x := find_conn acc c in
-                          set_conn acc {| cn_c := c; cn_inbox := cn_inbox x ++ [r]; cn_acq := cn_acq x;
-                                          cn_tasks := cn_tasks x; cn_ended := cn_ended x |}) gs cs.
+  fold_left (fun acc (g : grant) =>
+               let c := fst (fst g) in
+               let x := find_conn acc c in
+               set_conn acc {| cn_c := c; cn_inbox := cn_inbox x ++ [snd g]; cn_acq := cn_acq x;
+                               cn_tasks := cn_tasks x; cn_ended := cn_ended x |}) gs cs.
 
-Definition remove_one_N (x : N) (l : list N) : list N :=
-  (fix go l := match l with [] => [] | y :: t => if N.eqb x y then t else y :: go t end) l.
-
-(* the service messages one connection event causes (each connection uses its channel 0) *)
+(* the service messages one connection event causes, and the connection afterwards *)
 Definition cev_msgs (cs : list conn) (e : cev) : list msg * list conn :=
   match e with
   | CRequest c rooms =>
@@ -198,8 +206,7 @@ Definition cev_msgs (cs : list conn) (e : cev) : list msg * list conn :=
       if cn_ended x then ([], cs) else
       match cn_inbox x with
       | [] => ([], cs)
-      | r :: rest => ([], set_conn cs {| cn_c := c; cn_inbox := rest;
-                                         cn_acq := if memN r (cn_acq x) then cn_acq x else r :: cn_acq x;
+      | r :: rest => ([], set_conn cs {| cn_c := c; cn_inbox := rest; cn_acq := insert_sorted r (cn_acq x);
                                          cn_tasks := r :: cn_tasks x; cn_ended := false |})
       end
   | CFinish c r =>
@@ -215,20 +222,21 @@ Definition cev_msgs (cs : list conn) (e : cev) : list msg * list conn :=
        set_conn cs {| cn_c := c; cn_inbox := cn_inbox x; cn_acq := cn_acq x; cn_tasks := cn_tasks x; cn_ended := true |})
   end.
 
-Fixpoint steps (s : st) (ms : list msg) : st * list grant :=
+(* several messages in a row; the grants of each *)
+Fixpoint steps (s : st) (ms : list msg) : st * list (list grant) :=
   match ms with
   | [] => (s, [])
-  | m :: tl => let '(s1, g1) := step s m in let '(s2, g2) := steps s1 tl in (s2, g1 ++ g2)
+  | m :: tl => let '(s1, g1) := step s m in let '(s2, g2) := steps s1 tl in (s2, g1 :: g2)
   end.
 
-Definition cstep (x : cst) (e : cev) : cst * list msg * list grant :=
+Definition cstep (x : cst) (e : cev) : cst * list msg * list (list grant) :=
   let '(ms, cs1) := cev_msgs (c_conns x) e in
-  let '(s', gs) := steps (c_svc x) ms in
-  ({| c_svc := s'; c_conns := deliver cs1 gs |}, ms, gs).
+  let '(s', gss) := steps (c_svc x) ms in
+  ({| c_svc := s'; c_conns := deliver cs1 (concat gss) |}, ms, gss).
 
-Fixpoint crun (x : cst) (es : list cev) : list (list msg * list grant) :=
+Fixpoint crun (x : cst) (es : list cev) : list (cst * list msg * list (list grant)) :=
   match es with
   | [] => []
-  | e :: tl => let '(x', ms, gs) := cstep x e in (ms, gs) :: crun x' tl
+  | e :: tl => let '(x', ms, gss) := cstep x e in (x', ms, gss) :: crun x' tl
   end.
 Definition cinit (max : nat) : cst := {| c_svc := init max; c_conns := [] |}.
